@@ -572,7 +572,7 @@ def check_c12(tier, replay=None):
 
 def check_c13(tier, replay=None):
     m = mult(tier)
-    plan = [(G.adversarial, 25 * m, {}), (G.honest, 12 * m, {'gname': 'g12'}), (G.honest, 8 * m, {}), (G.reassign, 15 * m, {}), (G.endgame10, 14 * m, {}), ('model', 12 * m, {})]
+    plan = [(G.adversarial, 25 * m, {}), (G.honest, 12 * m, {'gname': 'g12'}), (G.honest, 8 * m, {}), (G.reassign, 12 * m, {}), (G.endgame10, 12 * m, {}), (G.rarest, 20 * m, {}), ('model', 12 * m, {})]
     return swarm_check('C13', tier, plan, need_actions=('MUnchoke', 'MBitfield', 'MHave'), kinds= ['Unchoke', 'Bitfield', 'Have'],
                        design_over=dict(Fuel=2, NPieces=3, NBlocks='N1x3', BFMenu='{{1, 2}, {3}}') if tier == 'quick' else dict(Fuel=3, NPieces=3, NBlocks='N1x3', BFMenu='{{1, 2}, {3}, {1, 2, 3}}'),
                        vacuity={'mgr_events': 500}, replay=replay,
@@ -582,7 +582,7 @@ def check_c13(tier, replay=None):
 
 def check_c14(tier, replay=None):
     m = mult(tier)
-    plan = [(G.choking, 20 * m, {}), (G.rotation_race, 20 * m, {}), (G.optimistic, 5 * m, {})]
+    plan = [(G.choking, 20 * m, {}), (G.slots, 10 * m, {}), (G.rotation_race, 16 * m, {}), (G.optimistic, 5 * m, {})]
     return swarm_check('C14', tier, plan, need_actions=('MRotate', 'MBitfield', 'HBroadState'), kinds= ['Bitfield', 'Interested'] if tier == 'quick' else ['Bitfield', 'Interested', 'NotInterested'],
                        design_over=dict(Peers='{a, b}', NPieces=1, NBlocks='N1', TickFuel=1, Fuel=2, MaxUnchoked=1, BFMenu='{{1}}', OptRounds=1) if tier == 'quick'
                        else dict(Peers='{a, b, c}', NPieces=1, NBlocks='N1', TickFuel=1, Fuel=2, MaxUnchoked=1, BFMenu='{{1}}'),
